@@ -50,6 +50,7 @@ type vC08AliasParams struct {
 	GapS      int64 // virtual seconds between the warm-up and the main tree
 	Withdraw  bool  // tld. withdraws b.tld. instead of re-pointing it
 	Wire      bool
+	Bare      bool // the target zone's servers deny with the bare rcode: no SOA, empty authority section
 }
 
 // vC08AliasReply: rcode and provenance (id of the server whose address / SOA the reply carries, -1 none)
@@ -120,8 +121,9 @@ func vC08AliasCase(t *testing.T, o *vC08Out, w *vC08World, pr vC08AliasParams, k
 	w.mu.Lock()
 	for _, s := range w.srvs {
 		s.deleg, s.mode, s.ansTTL, s.negTTL = map[string]*vC08Deleg{}, 0, pr.AnsTTL, pr.NegTTL
-		s.dnameTo, s.cnameTo, s.aliasTTL, s.allExist = "", "", pr.AliasTTL, false
+		s.dnameTo, s.cnameTo, s.aliasTTL, s.allExist, s.bareNeg = "", "", pr.AliasTTL, false, false
 	}
+	w.srvs[3].bareNeg = pr.Bare
 	w.srvs[0].deleg["tld."] = &vC08Deleg{nsTTL: []uint32{pr.TLD}, target: 1, active: true}
 	w.srvs[1].deleg["a.tld."] = &vC08Deleg{nsTTL: []uint32{pr.A}, target: 2, active: true}
 	w.srvs[1].deleg["b.tld."] = &vC08Deleg{nsTTL: []uint32{pr.B}, target: 3, active: true}
@@ -170,7 +172,13 @@ func vC08AliasCase(t *testing.T, o *vC08Out, w *vC08World, pr vC08AliasParams, k
 		inconcl, why = true, why+" slow or no reply"
 	}
 	wantRcode := []int{dns.RcodeSuccess, dns.RcodeNameError, dns.RcodeSuccess}[pr.Outcome]
-	if rep.rcode != wantRcode || rep.src != 3 {
+	// a bare denial carries no provenance: no address, no SOA
+	bareDenial := pr.Bare && pr.Outcome != 0
+	wantSrc := 3
+	if bareDenial {
+		wantSrc = -1
+	}
+	if rep.rcode != wantRcode || rep.src != wantSrc {
 		inconcl, why = true, why+fmt.Sprintf(" unexpected first reply rcode=%d src=%d", rep.rcode, rep.src)
 	}
 	sawB := false
@@ -236,7 +244,9 @@ func vC08AliasCase(t *testing.T, o *vC08Out, w *vC08World, pr vC08AliasParams, k
 	if !rep4.ok {
 		inconcl, why = true, why+" no second reply"
 	}
-	fromOld := rep4.src == 3
+	// every current server's reply names its source (tld.'s NXDOMAIN and the new servers' denials carry their SOA, the new
+	// servers' addresses their id): a denial without any provenance can only be the old servers' bare denial
+	fromOld := rep4.src == 3 || (bareDenial && rep4.ok && rep4.rcode == wantRcode && rep4.src < 0)
 	goFail := ""
 	if !inconcl && t4 >= lease && (fromOld || oldAsked) {
 		goFail = fmt.Sprintf("ghost: %s %s asked again at t=%v, after the lease the parent side granted for b.tld. ended (%v) and tld. had re-pointed/withdrawn it: rcode=%d, reply carries the old target servers' data=%v, old servers asked=%v",
@@ -252,11 +262,17 @@ func vC08AliasCase(t *testing.T, o *vC08Out, w *vC08World, pr vC08AliasParams, k
 	outerTTL := int64(pr.AliasTTL)
 	if pr.Outcome != 0 {
 		msgTTL = int64(pr.NegTTL)
-		if msgTTL < outerTTL {
+		if bareDenial {
+			// a reply without records is admitted with dnsutil.MinCacheTTL; the composed denial holds the alias records only
+			msgTTL = int64(vC08BareNegTTL)
+		} else if msgTTL < outerTTL {
 			outerTTL = msgTTL
 		}
 	}
 	kind := kindPrefix + "alias-" + map[bool]string{true: "dname", false: "cname"}[pr.Dname] + "-" + []string{"address", "nxdomain", "nodata"}[pr.Outcome]
+	if bareDenial {
+		kind += "-bare"
+	}
 	if pr.Warm {
 		kind += "-warm"
 	}
@@ -265,8 +281,8 @@ func vC08AliasCase(t *testing.T, o *vC08Out, w *vC08World, pr vC08AliasParams, k
 		"coq": fmt.Sprintf("CaseAlias %s %d %d %d %s %s %s %s %s [%s] %s %s %s %s %s",
 			vC08B(pr.Dname), pr.TLD, pr.A, pr.B, vC08Z(outerTTL*sec), vC08Z(msgTTL*sec), warmTerm, vC08Z(t0), vC08Z(t1),
 			strings.Join(ds, "; "), outerTerm, targetTerm, vC08Z(t4), vC08B(fromOld), vC08B(oldAsked)),
-		"desc": fmt.Sprintf("TTLs tld %d a.tld. %d b.tld. %d alias %d answer %d neg %d; %s %s -> %s (outcome %d) warm=%v gap=%ds withdraw=%v wire=%v: tree [%v..%v] rcode=%d src=%d; %v; %s; %s; lease end %v, asked again at t=%v: rcode=%d src=%d old servers asked=%v",
-			pr.TLD, pr.A, pr.B, pr.AliasTTL, pr.AnsTTL, pr.NegTTL, outer, dns.TypeToString[qtype], target, pr.Outcome, pr.Warm, pr.GapS, pr.Withdraw, pr.Wire,
+		"desc": fmt.Sprintf("TTLs tld %d a.tld. %d b.tld. %d alias %d answer %d neg %d; %s %s -> %s (outcome %d) warm=%v gap=%ds withdraw=%v wire=%v bare=%v: tree [%v..%v] rcode=%d src=%d; %v; %s; %s; lease end %v, asked again at t=%v: rcode=%d src=%d old servers asked=%v",
+			pr.TLD, pr.A, pr.B, pr.AliasTTL, pr.AnsTTL, pr.NegTTL, outer, dns.TypeToString[qtype], target, pr.Outcome, pr.Warm, pr.GapS, pr.Withdraw, pr.Wire, pr.Bare,
 			time.Duration(t0), time.Duration(t1), rep.rcode, rep.src, dsDesc, outerDesc, targetDesc, time.Duration(lease), time.Duration(t4), rep4.rcode, rep4.src, oldAsked),
 	}
 	if inconcl {
@@ -320,6 +336,7 @@ func TestVerifC08Alias(t *testing.T) {
 			Withdraw: r.Intn(2) == 0,
 			Wire:     r.Intn(2) == 0,
 		}
+		pr.Bare = r.Intn(3) == 0
 		if r.Intn(6) == 0 {
 			// the other way round: the outer zone's lease is the short one
 			pr.A, pr.B = pr.B, pr.A
